@@ -100,8 +100,9 @@ theorem findTag_line (tag : Text) (s : TagLineSpec) (h : WFShape tag s.pre s.bla
 /-- at a tag line whose value is protected and whose trail END accepts, in any context: the first match is
     `(pre, v)`; where the match ends is `r` -/
 theorem step_tag_any (endRe : Re) (tag : Text) (hnl : '\n' ∉ tag) (s : TagLineSpec)
-    (hshape : WFShape tag s.pre s.blanks s.v s.trail [] = true) (hsafe : tailSafe endRe s.v = true)
-    (X r : Text) (hX : EndsLine X) (hm : matchEndWith endRe (s.trail ++ X) = some r) (F : Nat) :
+    (hshape : WFShape tag s.pre s.blanks s.v s.trail [] = true)
+    (X r : Text) (hsuf : noEndSuffixBefore endRe s.v (s.trail ++ X) = true)
+    (hX : EndsLine X) (hm : matchEndWith endRe (s.trail ++ X) = some r) (F : Nat) :
     findAllWith endRe tag (F + 1) (s.line tag ++ X) = (s.pre, s.v) :: findAllWith endRe tag F (r.drop 1) := by
   obtain ⟨_, _, h3, h4, h5, h6, _, _⟩ := wfShape_parts hshape
   have hne : s.line tag ++ X ≠ [] := by
@@ -119,18 +120,60 @@ theorem step_tag_any (endRe : Re) (tag : Text) (hnl : '\n' ∉ tag) (s : TagLine
   have hdrop : (s.blanks ++ (s.v ++ s.trail) ++ X).dropWhile isBlank = s.v ++ (s.trail ++ X) := by
     have := Model.dropWhile_blanks s.blanks (s.v ++ (s.trail ++ X)) h4 hwh
     simpa [List.append_assoc] using this
-  rw [hdrop, Model.valueAndRest_exact endRe s.v (s.trail ++ X) r h6 (noEndSuffix_of_tailSafe endRe s.v _ h6 hsafe) hm]
+  rw [hdrop, Model.valueAndRest_exact endRe s.v (s.trail ++ X) r h6 hsuf hm]
+
+/-- the line-local protection of the captured text transfers to any context: no tail of `w`, read with the trail
+    of the line and whatever follows the line, is taken for terminators -/
+theorem noEndSuffix_local {endRe : Re} (hG : EndGuarded endRe) (w trail X : Text) (hX : EndsLine X)
+    (hno : noEndSuffixBefore endRe w trail = true) (hopen : openEnd (w ++ trail) = false) :
+    noEndSuffixBefore endRe w (trail ++ X) = true := by
+  induction w with
+  | nil => rfl
+  | cons c cs ih =>
+    simp only [noEndSuffixBefore, Bool.and_eq_true, Bool.not_eq_true'] at hno ⊢
+    have hcs : openEnd (cs ++ trail) = false := openEnd_suffix (List.suffix_cons c (cs ++ trail)) hopen
+    refine ⟨?_, ih hno.2 hcs⟩
+    have h1 := hno.1
+    unfold endOk at h1 ⊢
+    have e : c :: cs ++ (trail ++ X) = (c :: cs ++ trail) ++ X := by simp
+    rw [e, matchEnd_local hG (c :: cs ++ trail) X hopen (atLineEnd_of_endsLine hX)]
+    cases hm : matchEndWith endRe (c :: cs ++ trail) with
+    | none => rfl
+    | some r => rw [hm] at h1; cases h1
+
+theorem valueSafe_any {endRe : Re} (hG : EndGuarded endRe) (w trail X : Text) (hX : EndsLine X) (hnl : noNewline w = true)
+    (h : valueSafeIn endRe w trail = true) : noEndSuffixBefore endRe w (trail ++ X) = true := by
+  unfold valueSafeIn at h
+  simp only [Bool.or_eq_true, Bool.and_eq_true, Bool.not_eq_true'] at h
+  rcases h with h | ⟨h1, h2⟩
+  · exact noEndSuffix_of_tailSafe endRe w _ hnl h
+  · exact noEndSuffix_local hG w trail X hX h1 h2
 
 /-- **One step at a tag line**, in any context (`X` empty or a line feed and the rest of the text): the match is
-    `(pre, v)` and `findall` resumes at the next line. -/
+    `(pre, v)` — `v` what the expression captures — and `findall` resumes at the next line. -/
+theorem step_tag_raw {endRe : Re} (hG : EndGuarded endRe) (tag : Text) (hnl : '\n' ∉ tag) (s : TagLineSpec)
+    (hok : tagLineRaw endRe tag s = true) (X : Text) (hX : EndsLine X) (F : Nat) :
+    findAllWith endRe tag (F + 1) (s.line tag ++ X) = (s.pre, s.v) :: findAllWith endRe tag F (X.drop 1) := by
+  unfold tagLineRaw at hok
+  simp only [Bool.and_eq_true, Bool.not_eq_true'] at hok
+  obtain ⟨⟨⟨hshape, hend⟩, hopen⟩, hsafe⟩ := hok
+  have htr := (wfShape_parts hshape).2.2.2.2.2.2.1
+  have hvnl := (wfShape_parts hshape).2.2.2.2.2.1
+  exact step_tag_any endRe tag hnl s hshape X X (valueSafe_any hG s.v s.trail X hX hvnl hsafe) hX
+    (endStops hG s.trail X htr hend hopen hX) F
+
+theorem tagLineRaw_of_ok {endRe : Re} {tag : Text} {s : TagLineSpec} (h : tagLineOK endRe tag s = true) :
+    tagLineRaw endRe tag s = true := by
+  unfold tagLineOK at h
+  simp only [Bool.and_eq_true] at h
+  unfold tagLineRaw
+  simp only [Bool.and_eq_true]
+  exact h.1.1
+
 theorem step_tag {endRe : Re} (hG : EndGuarded endRe) (tag : Text) (hnl : '\n' ∉ tag) (s : TagLineSpec)
     (hok : tagLineOK endRe tag s = true) (X : Text) (hX : EndsLine X) (F : Nat) :
-    findAllWith endRe tag (F + 1) (s.line tag ++ X) = (s.pre, s.v) :: findAllWith endRe tag F (X.drop 1) := by
-  unfold tagLineOK at hok
-  simp only [Bool.and_eq_true, Bool.not_eq_true'] at hok
-  obtain ⟨⟨⟨⟨⟨hshape, hend⟩, hopen⟩, hsafe⟩, _⟩, _⟩ := hok
-  have htr := (wfShape_parts hshape).2.2.2.2.2.2.1
-  exact step_tag_any endRe tag hnl s hshape hsafe X X hX (endStops hG s.trail X htr hend hopen hX) F
+    findAllWith endRe tag (F + 1) (s.line tag ++ X) = (s.pre, s.v) :: findAllWith endRe tag F (X.drop 1) :=
+  step_tag_raw hG tag hnl s (tagLineRaw_of_ok hok) X hX F
 
 theorem findTag_free (tag l : Text) (hnl : '\n' ∉ tag) (h : tagFreeLine tag l = true) : findTagInLine tag l = none := by
   unfold tagFreeLine at h
@@ -159,6 +202,7 @@ theorem step_free (endRe : Re) (tag : Text) (hnl : '\n' ∉ tag) (l : Text) (h :
 def TextLine.pair : TextLine → Option (Text × Text)
   | .free _ => none
   | .tagged s => some (s.pre, s.v)
+  | .framed s ws => some (s.pre, s.v ++ ws ++ mirror s.pre)
 
 theorem step_line {endRe : Re} (hG : EndGuarded endRe) (tag : Text) (hnl : '\n' ∉ tag) (l : TextLine)
     (hok : l.ok endRe tag = true) (X : Text) (hX : EndsLine X) (F : Nat) :
@@ -167,6 +211,11 @@ theorem step_line {endRe : Re} (hG : EndGuarded endRe) (tag : Text) (hnl : '\n' 
   cases l with
   | free t => exact step_free endRe tag hnl t hok X hX F
   | tagged s => exact step_tag hG tag hnl s hok X hX F
+  | framed s ws =>
+    have hok' : tagLineFramedOK endRe tag s ws = true := hok
+    unfold tagLineFramedOK at hok'
+    simp only [Bool.and_eq_true] at hok'
+    exact step_tag_raw hG tag hnl (s.framed ws) hok'.1.1.1.1 X hX F
 
 /-- **`findall` on a text of lines**: tag lines (each satisfying the line-local hypotheses) and lines without
     `TAG[ \t]` in any order — the matches are those of the tag lines, in order. -/
@@ -227,6 +276,13 @@ theorem clean_ok (endRe : Re) (tag : Text) (ls : List TextLine) (hok : ∀ l ∈
       simp only [Bool.and_eq_true] at hl'
       rw [List.filterMap_cons_some (b := (s.pre, s.v)) (by rfl), List.filterMap_cons_some (b := s.v) (by rfl),
         List.map_cons, Model.cleanTag_plain s.pre s.v hl'.1.2 hl'.2, hrest]
+    | framed s ws =>
+      have hl' : tagLineFramedOK endRe tag s ws = true := hl
+      unfold tagLineFramedOK at hl'
+      simp only [Bool.and_eq_true, Bool.not_eq_true'] at hl'
+      obtain ⟨⟨⟨⟨_, hs⟩, hne⟩, hws⟩, hm⟩ := hl'
+      rw [List.filterMap_cons_some (b := (s.pre, s.v ++ ws ++ mirror s.pre)) (by rfl),
+        List.filterMap_cons_some (b := s.v) (by rfl), List.map_cons, Model.cleanTag_framed s.pre s.v ws hs hne hws hm, hrest]
 
 /-- **The tag values of a text of lines**: exactly the values of its tag lines, in order. -/
 theorem findTag_text {endRe : Re} (hG : EndGuarded endRe) (tag : Text) (hnl : '\n' ∉ tag)
@@ -273,7 +329,24 @@ theorem tagLineOK_of_syn (endRe : Re) (tag : Text) (s : TagLineSpec) (pieces : L
       have := Model.endOk_pieces body pieces [] hp rfl
       rw [Model.starBody_eq hb, htr]
       simpa using this
-    simp [tagLineOK, hshape, hend, hopen, hsafe, hs, hf]
+    simp [tagLineOK, valueSafeIn, hshape, hend, hopen, hsafe, hs, hf]
+
+theorem tagLineFramedOK_of_syn (endRe : Re) (tag : Text) (s : TagLineSpec) (ws : Text) (pieces : List Text)
+    (h : tagLineFramedSyn endRe tag s ws pieces = true) : tagLineFramedOK endRe tag s ws = true := by
+  unfold tagLineFramedSyn at h
+  simp only [Bool.and_eq_true, Bool.not_eq_true', beq_iff_eq] at h
+  obtain ⟨⟨⟨⟨⟨⟨⟨⟨hp, htr⟩, hshape⟩, hopen⟩, hsafe⟩, hs⟩, hne⟩, hws⟩, hm⟩ := h
+  cases hb : starBody endRe with
+  | none => rw [hb] at hp; cases hp
+  | some body =>
+    rw [hb] at hp
+    simp only [List.all_eq_true] at hp
+    have hend : endOk endRe s.trail = true := by
+      have := Model.endOk_pieces body pieces [] hp rfl
+      rw [Model.starBody_eq hb, htr]
+      simpa using this
+    simp only [tagLineFramedOK, tagLineRaw, TagLineSpec.framed, valueSafeIn, hshape, hend, hopen, hsafe, hs, hne, hws, hm,
+      Bool.not_false, Bool.true_or, Bool.and_self]
 
 theorem tagLineFound_of_ok {endRe : Re} {tag : Text} {s : TagLineSpec} (h : tagLineOK endRe tag s = true) :
     tagLineFound endRe tag s = true := by
@@ -284,15 +357,16 @@ theorem tagLineFound_of_ok {endRe : Re} {tag : Text} {s : TagLineSpec} (h : tagL
 
 /-! ### a tag line anywhere -/
 
-/-- **A tag line is found wherever it stands**: after any text that ends a line (`U` empty or ending with a line
-    feed — it may hold tags, unclosed quotes, anything) and before any text. -/
-theorem found_anywhere (endRe : Re) (tag : Text) (hnl : '\n' ∉ tag) (hun : tagUnusable endRe tag = true)
-    (s : TagLineSpec) (hok : tagLineFound endRe tag s = true) (U after : Text) (hU : AtLS U) :
-    s.v ∈ findSpdxTagWith endRe tag (U ++ (s.line tag ++ '\n' :: after)) := by
-  unfold tagLineFound at hok
-  simp only [Bool.and_eq_true] at hok
-  obtain ⟨⟨⟨⟨hshape, hend⟩, hsafe⟩, hs⟩, hf⟩ := hok
+/-- the regular-expression part: the match `(pre, w)` of a tag line is among the matches of every text that holds the
+    line between line boundaries -/
+theorem found_anywhere_raw {endRe : Re} (hG : EndGuarded endRe) (tag : Text) (hnl : '\n' ∉ tag)
+    (hun : tagUnusable endRe tag = true) (s : TagLineSpec)
+    (hshape : WFShape tag s.pre s.blanks s.v s.trail [] = true) (hend : endOk endRe s.trail = true)
+    (hsafe : valueSafeIn endRe s.v s.trail = true) (U after : Text) (hU : AtLS U) :
+    (s.pre, s.v) ∈ findAllWith endRe tag ((U ++ (s.line tag ++ '\n' :: after)).length + 1)
+      (U ++ (s.line tag ++ '\n' :: after)) := by
   have htr := (wfShape_parts hshape).2.2.2.2.2.2.1
+  have hvnl := (wfShape_parts hshape).2.2.2.2.2.1
   have hbad : ∃ c ∈ s.line tag, mayUse endRe c = false := by
     unfold tagUnusable at hun
     obtain ⟨c, hc, hcu⟩ := List.any_eq_true.mp hun
@@ -301,11 +375,39 @@ theorem found_anywhere (endRe : Re) (tag : Text) (hnl : '\n' ∉ tag) (hun : tag
     intro f
     obtain ⟨r, hr⟩ := Option.isSome_iff_exists.mp
       (Model.matchEnd_complete (endRe := endRe) (a := s.trail) (b := '\n' :: after) (matchEnd_trail htr hend).2 rfl)
-    rw [step_tag_any endRe tag hnl s hshape hsafe ('\n' :: after) r (.inr ⟨after, rfl⟩) hr f]
+    rw [step_tag_any endRe tag hnl s hshape ('\n' :: after) r
+      (valueSafe_any hG s.v s.trail _ (.inr ⟨after, rfl⟩) hvnl hsafe) (.inr ⟨after, rfl⟩) hr f]
     simp
-  unfold findSpdxTagWith
-  refine List.mem_map.mpr ⟨(s.pre, s.v), ?_, Model.cleanTag_plain s.pre s.v hs hf⟩
   exact scan_reaches endRe tag hnl (s.line tag) after (line_noNewline tag hnl s hshape) hbad (s.pre, s.v) hany
     U.length U (Nat.le_refl _) hU _ (by simp only [List.length_append]; omega)
+
+/-- **A tag line is found wherever it stands**: after any text that ends a line (`U` empty or ending with a line
+    feed — it may hold tags, unclosed quotes, anything) and before any text. -/
+theorem found_anywhere {endRe : Re} (hG : EndGuarded endRe) (tag : Text) (hnl : '\n' ∉ tag)
+    (hun : tagUnusable endRe tag = true)
+    (s : TagLineSpec) (hok : tagLineFound endRe tag s = true) (U after : Text) (hU : AtLS U) :
+    s.v ∈ findSpdxTagWith endRe tag (U ++ (s.line tag ++ '\n' :: after)) := by
+  unfold tagLineFound at hok
+  simp only [Bool.and_eq_true] at hok
+  obtain ⟨⟨⟨⟨hshape, hend⟩, hsafe⟩, hs⟩, hf⟩ := hok
+  unfold findSpdxTagWith
+  exact List.mem_map.mpr ⟨(s.pre, s.v), found_anywhere_raw hG tag hnl hun s hshape hend hsafe U after hU,
+    Model.cleanTag_plain s.pre s.v hs hf⟩
+
+/-- … and so is a framed tag line -/
+theorem found_anywhere_framed {endRe : Re} (hG : EndGuarded endRe) (tag : Text) (hnl : '\n' ∉ tag)
+    (hun : tagUnusable endRe tag = true)
+    (s : TagLineSpec) (ws : Text) (hok : tagLineFramedOK endRe tag s ws = true) (U after : Text) (hU : AtLS U) :
+    s.v ∈ findSpdxTagWith endRe tag (U ++ ((s.framed ws).line tag ++ '\n' :: after)) := by
+  unfold tagLineFramedOK at hok
+  simp only [Bool.and_eq_true, Bool.not_eq_true'] at hok
+  obtain ⟨⟨⟨⟨hraw, hs⟩, hne⟩, hws⟩, hm⟩ := hok
+  unfold tagLineRaw at hraw
+  simp only [Bool.and_eq_true, Bool.not_eq_true'] at hraw
+  obtain ⟨⟨⟨hshape, hend⟩, _⟩, hsafe⟩ := hraw
+  unfold findSpdxTagWith
+  exact List.mem_map.mpr ⟨(s.pre, s.v ++ ws ++ mirror s.pre),
+    found_anywhere_raw hG tag hnl hun (s.framed ws) hshape hend hsafe U after hU,
+    Model.cleanTag_framed s.pre s.v ws hs hne hws hm⟩
 
 end C02L
